@@ -4,6 +4,7 @@ mod exec;
 mod framework;
 mod gen;
 mod model;
+mod mutate;
 mod ops;
 mod props;
 mod refimpl;
